@@ -11,7 +11,7 @@ open Common
 
 let pos_of_hex_exn s = match pos_of_hex s with Some p -> p | None -> failwith ("bad positive " ^ s)
 let split c s = if s = "" then [] else String.split_on_char c s
-let dir_of s : dir = List.map pos_of_hex_exn (split '.' s)
+let dir_of s = List.map pos_of_hex_exn (split '.' s)
 let names_of s = List.map pos_of_hex_exn (split ',' s)
 let fault s = if s = "-" then None else Some (nat_of_int (int_of_string ("0x" ^ s)))
 let file_of e = match String.split_on_char ':' e with
@@ -24,11 +24,11 @@ let tree_of_string s =
     | None -> failwith ("bad tree entry " ^ e)) (split ';' s))
 
 (* ---- labels ---- *)
-type labels = { mutable dirs : (dir * int) list; mutable files : ((dir * positive) * int) list }
+type labels = { mutable dirs : (positive list * int) list; mutable files : ((positive list * positive) * int) list }
 
 let rec take k l = if k <= 0 then [] else match l with [] -> [] | x :: r -> x :: take (k - 1) r
 
-let dir_label lb (d : dir) =
+let dir_label lb (d : positive list) =
   if d = [] then "src" else
   let n = List.length d in
   String.concat "/" (List.mapi (fun i c ->
@@ -72,7 +72,7 @@ let render_trace lb (evs : devent list) =
       | _ -> path_label lb e.de_p in
     str_op e.de_op ^ "(" ^ args ^ ")=" ^ str_res e.de_op e.de_res) evs)
 
-let render_tree lb (t : tree) =
+let render_tree lb t =
   let ds = List.map (fun (d, fl) ->
     let fs = List.sort compare (List.map (fun (n, f) ->
       file_label lb d n ^ ":" ^ hex_of_n f.fmode ^ ":" ^ hex_of_bytes f.fdata) fl) in
